@@ -75,4 +75,46 @@ def mulMaxPlanEval (p : MulMaxPlan) (v zp q zpC m s lo hi : Int) : Int :=
   | .abs => absEntry v zp lo hi
   | .lrelu a z => if z then reluEntry v zp lo hi else lreluLutEntry v zp a m s lo hi
 
+/-! ## PAD in front of a window operator -/
+
+/-- the tensor a PAD produces: `pv` outside the original `H × W` -/
+def padded (H W : Nat) (ifm : Nat → Nat → Nat → Int) (t l : Nat) (pv : Int) : Nat → Nat → Nat → Int :=
+  fun y x c => if t ≤ y ∧ y - t < H ∧ l ≤ x ∧ x - l < W then ifm (y - t) (x - l) c else pv
+
+/-- one channel of it -/
+def padded2 (H W : Nat) (ifm : Nat → Nat → Int) (t l : Nat) (pv : Int) : Nat → Nat → Int :=
+  fun y x => if t ≤ y ∧ y - t < H ∧ l ≤ x ∧ x - l < W then ifm (y - t) (x - l) else pv
+
+/-! ## FULLY_CONNECTED -/
+
+/-- accumulator of the reference FULLY_CONNECTED for batch row `b`, output `o` (`TfliteRef.fullyConnected`) -/
+def fcAcc (I : Nat) (x w : Nat → Int) (inOff wOff : Int) (b o : Nat) : Int :=
+  sumRange I fun i => (x (b * I + i) + inOff) * (w (o * I + i) + wOff)
+
+/-! ## Concatenation / split along one axis -/
+
+/-- which input owns coordinate `a` of the concatenation axis, and at which coordinate of its own (the search loop of
+    `TfliteRef.concat`) -/
+def locate : List Nat → Nat → Option (Nat × Nat)
+  | [], _ => none
+  | d :: ds, a => if a < d then some (0, a) else (locate ds (a - d)).map fun (k, j) => (k + 1, j)
+
+/-- the copies `rewrite_concat_ops` creates, executed in order: input `k` (size `d`, write offset `o`) writes its coordinate `j`
+    to `o + j`; `acc` is what position `a` held before -/
+def writtenFrom (k : Nat) : List (Nat × Nat) → Nat → Option (Nat × Nat) → Option (Nat × Nat)
+  | [], _, acc => acc
+  | (d, o) :: rest, a, acc => writtenFrom (k + 1) rest a (if o ≤ a ∧ a < o + d then some (k, a - o) else acc)
+
+/-- number of copies that write position `a` -/
+def writers : List (Nat × Nat) → Nat → Nat
+  | [], _ => 0
+  | (d, o) :: rest, a => (if o ≤ a ∧ a < o + d then 1 else 0) + writers rest a
+
+/-- write offsets as a recursion (what `concatOffsets` computes with a fold) -/
+def offsFrom (base : Nat) : List Nat → List Nat
+  | [] => []
+  | d :: ds => base :: offsFrom (base + d) ds
+
+def sumL (l : List Nat) : Nat := l.foldl (· + ·) 0
+
 end VelaVerif.RewriteSem
